@@ -290,7 +290,7 @@ def _db():
     def gen(rng):
         c = ops_cfg(rng, ["q", "q", "tx_commit", "tx_rollback"])
         c.update(maxc=rng.randint(1, 3), ql=lat(rng, hi=0.02), cl=lat(rng, hi=0.02), col=lat(rng, hi=0.02), rl=lat(rng, hi=0.02))
-        if rng.random() < 0.4:
+        if rng.random() < 0.6:
             # pool exhaustion: 1-2 connections, more simultaneous queries than connections, queries that take time,
             # and connections that are handed over in zero time (in-process / pre-established) in half of these runs
             mc = rng.randint(1, 2)
@@ -298,7 +298,7 @@ def _db():
             arr = [[t1, rng.choice(["q", "q", "tx_commit"]), j, rng.choice([0.0, 0.01])] for j in range(mc + rng.randint(1, 4))]
             arr += [[t1 + rng.randrange(1, 5 * 10**7), "q", 0, 0.0] for _ in range(rng.randint(0, 5))]
             arr.sort(key=lambda a: a[0])
-            c.update(arr=arr, maxc=mc, ql=lat(rng, zero_p=0.0, hi=0.03), cl=rng.choice([0.0, 0.0, lat(rng, hi=0.005)]),
+            c.update(arr=arr, maxc=mc, ql=lat(rng, zero_p=0.0, hi=0.03), cl=rng.choice([0.0, 0.0, 0.0, lat(rng, hi=0.005)]),
                      tags=c["tags"] + ["pool_exhaustion"])
         return c
 
